@@ -149,6 +149,63 @@ WITNESS_F9 = dict(witness=True, prog=[["F", "Forward"], ["a", "Literal", "a"], [
                   root="root", inputs=["a b b", "a b", "b"])
 
 
+def template_jobs(ctx, n):
+    """directed shapes for the memo's aliasing hazards: (a) one Forward parsed at the same location by several alternative
+    sequences, a later element of an alternative that fails late carries a results name (a name written into a shared
+    memo entry would surface in the next alternative); (b) the same Forward failing twice at one location, first inside a
+    wrapper that rewrites the message of the exception it catches (set_name'd Group/Opt, MatchFirst failing at its start)
+    and is then discarded (a memoised exception aliased with the propagating one would report the rewritten message)"""
+    jobs = []
+    for i in range(n):
+        r = random.Random(f"C03-{ctx.seed}-tpl-{i}")
+        names = ["n", "n*", "key", "key*"]
+        prog = [["F", "Forward"], ["w", "Word", "ab"]]
+        body = "w"
+        if r.random() < 0.4:
+            prog.append(["wn", "name", "w", r.choice(names)])
+            body = "wn"
+        if r.random() < 0.4:
+            prog.append(["wg", "Group", body])
+            body = "wg"
+        if r.random() < 0.4:
+            prog += [["x", "Literal", "x"], ["wx", "+", body, "x"]]
+            body = "wx"
+        prog.append(["_", "<<=", "F", body])
+        f = "F"
+        if r.random() < 0.3:
+            prog += [["G", "Forward"], ["_", "<<=", "G", "F"]]
+            f = "G"
+        prog += [["d0", "Word", "01"], ["d", "name", "d0", r.choice(names)], ["c", "Literal", r.choice(["c", ";"])],
+                 ["y", "Literal", "y"]]
+        if r.random() < 0.5:
+            # (a) names
+            prog.append(["s1", "And", [f, "d", "c"]])
+            prog.append(["s2", "And", [f, "d0"]] if r.random() < 0.7 else ["s2", "And", [f, "d"]])
+            alts = ["s1", "s2"]
+            if r.random() < 0.3:
+                prog.append(["s0", "And", [f, "d", "d", "c"]])
+                alts = ["s0"] + alts
+            prog.append(["root", r.choice(["MatchFirst", "Or"]), alts])
+            root = "root"
+            if r.random() < 0.3:
+                prog.append(["rr", "OneOrMore", "root"])
+                root = "rr"
+        else:
+            # (b) messages
+            k = r.random()
+            if k < 0.4:
+                prog += [["g", r.choice(["Group", "Suppress", "copy"]), f], ["_", "set_name", "g", "item"], ["first", "Opt", "g"]]
+            elif k < 0.7:
+                prog += [["m", "MatchFirst", [f, "y"]], ["first", "Opt", "m"]]
+            else:
+                prog += [["m", "MatchFirst", [f, "y"]], ["nm", "~", "m"], ["first", "Opt", "nm"]]
+            prog.append(["root", "+", "first", f])
+            root = "root"
+        jobs.append(dict(prog=prog, root=root, inputs=["a 1", "a 1 c", "a q", "q", "a x 1", "a x 1 c", "a x q", "a 1 1 c", "a",
+                                                       "a x", "a 1 a 1 ;", "y a"]))
+    return jobs
+
+
 def run(ctx):
     common.import_pyparsing()
     ctx.proof_leg("PPProofs.Props.C03", THEOREMS)
@@ -165,6 +222,7 @@ def run(ctx):
         jobs.append(dict(prog=prog, root=root, inputs=inputs, entries=[("parse", ()), ("scan", (100, True, False))],
                          modes=[("lr", None), ("lr", 1), ("lr", 2)]))
     corr_parse.run_jobs(ctx, "model(parseLR)-vs-real:lr", jobs)
+    run_oracle(ctx, "oracle:lr-vs-none:aliasing-templates", template_jobs(ctx, ctx.budget(600, 6000)))
     mult = 5 if (ctx.broken and not ctx.fail_inputs) else 1
     oj = [dict(prog=j["prog"], root=j["root"], inputs=j["inputs"]) for j in jobs]
     run_oracle(ctx, "oracle:lr-vs-none", oj)
